@@ -517,11 +517,13 @@ func (p *StreamPool) getConnection(k key, end bool, ts time.Time) *connection {
 	s := p.factory.New(k[0], k[1])
 	verifYieldRW(5, &p.mu, true)
 	p.mu.Lock()
-	conn = p.newConnection(k, s, ts)
+	// Look again before taking an object from the free list: resetting one and
+	// then not using it would leave a live-looking connection outside the pool.
 	if conn2 := p.conns[k]; conn2 != nil {
 		p.mu.Unlock()
 		return conn2
 	}
+	conn = p.newConnection(k, s, ts)
 	p.conns[k] = conn
 	p.mu.Unlock()
 	return conn
